@@ -270,7 +270,34 @@ def run_shard(spec_, res):
         v["what"] = "after an application defined a subclass of every module class: " + v["what"]
     MODULE_CLASSES.clear()
     MODULE_CLASSES.update(originals)
-    res.count("registry_comparisons", 3)
+    # ... and subclasses that EXTEND a type (one more controller, declared the usual way), defined late in the process, after
+    # instances of every type (MetaModules with their per-instance controllers included) have been created and loaded:
+    # the built-in classes keep their tables
+    import rv.api as api
+    from rv.controller import Controller
+    for cls in originals.values():
+        try:
+            cls()
+        except Exception:
+            pass
+    api.m.MetaModule().clone()
+    for mtype, cls in sorted(originals.items()):
+        try:
+            ext = type(cls.__name__ + "Plus", (cls,), {"rvmon_extra_amount": Controller((0, 100), 50), "__module__": cls.__module__, "__doc__": cls.__doc__})
+            res.count("extending_subclasses_defined")
+            if "rvmon_extra_amount" not in ext.controllers:
+                res.count("extending_subclass_without_its_controller")
+        except Exception as e:
+            res.count("extending_subclass_refused")
+            res.hist("extending_subclass_refused_why", type(e).__name__)
+    MODULE_CLASSES.clear()
+    MODULE_CLASSES.update(originals)
+    n_viol = len(res.violations)
+    compare_all(res)
+    for v in res.violations[n_viol:]:
+        v["key"] = v["key"].replace("C13:", "C13:after-extending-subclasses:", 1)
+        v["what"] = "after an application defined controller-adding subclasses late in the process: " + v["what"]
+    res.count("registry_comparisons", 4)
     if spec_["tier"] == "thorough":
         regen_diff(res)
 
